@@ -177,6 +177,34 @@ func DegenerateShapes(r *R) []Degenerate {
 		f.Services = []*ir.Service{svcFor("d.emptylit", "Q", "Q")}
 		add("empty_string_literals", f)
 	}
+	// 11b°. messages that have NO plain field of their own: every field flattened (one child, two children), only a
+	// flattened discriminated oneof, only optional-nullable fields — the "own fields" part of whatever a generator
+	// builds for them is empty
+	{
+		f := mk("noown", "d.noown")
+		tr := true
+		pre := func(s string) *string { return &s }
+		f.Messages = []*ir.Message{
+			{Name: "Addr", Fields: []*ir.Field{{Name: "street", Number: 1, Kind: "string"}, {Name: "zip", Number: 2, Kind: "int32"}}},
+			{Name: "Who", Fields: []*ir.Field{{Name: "nick", Number: 1, Kind: "string"}}},
+			{Name: "OneFlat", Fields: []*ir.Field{{Name: "ship_to", Number: 1, Kind: "message", TypeName: ".d.noown.Addr", Ann: ir.Ann{Flatten: &tr}}}},
+			{Name: "TwoFlat", Fields: []*ir.Field{
+				{Name: "ship_to", Number: 1, Kind: "message", TypeName: ".d.noown.Addr", Ann: ir.Ann{Flatten: &tr, FlattenPrefix: pre("ship_")}},
+				{Name: "who", Number: 2, Kind: "message", TypeName: ".d.noown.Who", Ann: ir.Ann{Flatten: &tr}}}},
+			{Name: "OnlyOneof", Oneofs: []*ir.Oneof{{Name: "pick", HasConfig: true, Discriminator: pre("kind"), Flatten: true}}, Fields: []*ir.Field{
+				{Name: "addr", Number: 1, Kind: "message", TypeName: ".d.noown.Addr", Oneof: "pick"},
+				{Name: "who", Number: 2, Kind: "message", TypeName: ".d.noown.Who", Oneof: "pick"}}},
+			{Name: "OnlyNullable", Fields: []*ir.Field{{Name: "maybe", Number: 1, Kind: "string", Card: "optional", Ann: ir.Ann{Nullable: &tr}}}},
+			{Name: "All", Fields: []*ir.Field{
+				{Name: "a", Number: 1, Kind: "message", TypeName: ".d.noown.OneFlat"}, {Name: "b", Number: 2, Kind: "message", TypeName: ".d.noown.TwoFlat"},
+				{Name: "c", Number: 3, Kind: "message", TypeName: ".d.noown.OnlyOneof"}, {Name: "d", Number: 4, Kind: "message", TypeName: ".d.noown.OnlyNullable"}}},
+		}
+		f.Services = []*ir.Service{{Name: "Svc", Methods: []*ir.Method{
+			{Name: "A", Input: ".d.noown.OneFlat", Output: ".d.noown.TwoFlat"},
+			{Name: "B", Input: ".d.noown.OnlyOneof", Output: ".d.noown.OnlyNullable"},
+			{Name: "C", Input: ".d.noown.All", Output: ".d.noown.All"}}}}
+		add("messages_without_own_fields", f)
+	}
 	// 11b'. headers of every declared type with examples that are no value of that type (and some that are)
 	{
 		f := mk("hdrex", "d.hdrex")
